@@ -60,4 +60,9 @@ CHECKS = {
     design_ref='DESIGN.md section 2, C10',
     note='Same trusted base and exclusions as C02; the root causes recorded for C02 are also known findings here because chains reach them.',
     technique='property-based testing: path independence of generated migration chains (step-by-step vs direct), differential with two comparators'),
+ 'C03': dict(
+    text='Schemas reached directly from generated SDL, through chains of computed migrations, and through cross-module DDL issued from a session whose current module differs from the altered object (short names resolved through the session) are described as DDL and as SDL (ddl_text_from_schema / sdl_text_from_schema); the text is applied to a database holding only the standard library under a drawn session module (default, other, a module that does not exist) and the rebuilt schema must equal the original (independent semantic dump; maintainers diff empty both ways). Internal errors and rejections of the produced text are violations.',
+    design_ref='DESIGN.md section 2, C03',
+    note='DESCRIBE is exercised through schema/ddl.py text functions (the server compiler returns exactly this text); module aliases that shadow real module names are not generated.',
+    technique='property-based testing: describe -> apply round trip over generated schemas x output language x replaying session'),
 }
